@@ -173,6 +173,17 @@ CHECKS["C19"] = dict(
          "stop request; abandoned child freed exactly once), stop_on_request and canary.",
     note=MT_NOTE + " create_raw_sender / create_basic_sender are not driven.")
 
+CHECKS["C13"] = dict(
+    level="exploration", design="5 C13",
+    technique="runtime monitoring + reference-model differential on generated stream pipelines: probe streams whose "
+              "next/cleanup senders are manual leaves, list-semantics model per adaptor, direct log rules for cleanup "
+              "exactly-once / after the last next / before the consumer's result; lifetime ledger and ASan/UBSan",
+    text="For every generated pipeline and scenario the consumer-observed callable invocations (with element identities), "
+         "fold result, leaf starts and terminal signal are compared with the stream model; cleanup of every started source "
+         "must start exactly once, never while a next is outstanding, and finish before the consumer's result; stop "
+         "requests at every position must not duplicate or invent elements.",
+    note=EXPR_NOTE + " Adaptors not generated yet are listed in the evidence assumptions.")
+
 NOT_YET = "check not built yet (construction in progress, see DESIGN.md section 10)"
 
 
